@@ -59,6 +59,14 @@ Theorem C17_close_drops_one_reference_fixed : forall w U fuel a i a' e,
 Proof. exact close_machine_ok. Qed.
 Print Assumptions C17_close_drops_one_reference_fixed.
 
+(* ... and it TERMINATES, for any link graph, within 3 * (link entries of the files in use) + 3 steps of its call stack
+   (the code as it is does not: C17_close_cycle_refuted) *)
+Theorem C17_close_terminates_fixed : forall w U fuel a i,
+  Inv w a (i :: U) [] -> 3 * tlinks a + 3 <= fuel ->
+  exists a', adfi_close_file FixA fuel a i = Some (a', 0) /\ Inv w a' U [].
+Proof. exact close_machine_total. Qed.
+Print Assumptions C17_close_terminates_fixed.
+
 (* every cgio-level operation preserves the invariant (reference counts = handles + link entries; ledger = files in
    use; every live cgio slot is a handle the user still has to close) *)
 Theorem C17_session_invariant_fixed : forall w fuel ops s pend s' pend' rs,
